@@ -325,6 +325,7 @@ type fstate struct {
 	writes        []wr
 	dirDurable    bool // creation has been made durable by a directory sync
 	removePending bool
+	removedByTree bool
 	versions      [][]byte // pending atomic replacements (rename): oldest..newest
 	hasBaseVer    bool
 }
@@ -383,7 +384,9 @@ func (t *Trace) BuildImage(k int, mode ImageMode, choose Chooser, dst string) (I
 		switch op.Kind {
 		case OpCreate:
 			f := get(op.Path)
-			f.removePending = false
+			if f.removePending {
+				*f = fstate{} // a new file under the old name
+			}
 		case OpWrite:
 			f := get(op.Path)
 			f.writes = append(f.writes, wr{off: op.Off, data: op.Data})
@@ -426,6 +429,7 @@ func (t *Trace) BuildImage(k int, mode ImageMode, choose Chooser, dst string) (I
 			for p, f := range files {
 				if p == op.Path || strings.HasPrefix(p, pre) {
 					f.removePending = true
+					f.removedByTree = true
 				}
 			}
 		case OpReplace:
@@ -443,6 +447,10 @@ func (t *Trace) BuildImage(k int, mode ImageMode, choose Chooser, dst string) (I
 		f := files[p]
 		// removal not yet made durable
 		if f.removePending {
+			if f.removedByTree {
+				// recursive removals of whole folders are treated as durable once done
+				continue
+			}
 			switch mode {
 			case ImageKill:
 				continue
